@@ -246,7 +246,7 @@ class Contract:
     options: Dict[str, Any] = field(default_factory=dict)
 
 
-CLAUSES = {"ghost_arg", "no_raise_if", "requires", "ensures", "ensures_raise", "raises", "may_raise", "modifies", "ghost_set", "loop",
+CLAUSES = {"ensures_effects", "ghost_arg", "no_raise_if", "requires", "ensures", "ensures_raise", "raises", "may_raise", "modifies", "ghost_set", "loop",
            "decreases", "hint", "split", "note", "fresh", "option"}
 
 
@@ -300,6 +300,8 @@ def parse_contract_file(path: str) -> Tuple[List[Contract], Dict[str, Any]]:
                 c.requires += call.args
             elif fn == "ensures":
                 c.ensures += call.args
+            elif fn == "ensures_effects":
+                c.options.setdefault("ensures_effects", []).extend(call.args)
             elif fn == "ensures_raise":
                 c.ensures_raise += call.args
             elif fn == "raises":
